@@ -59,8 +59,6 @@ RowChk(Bad, p, r, head, Describe(_)) ==
   ELSE {V(p, r, <<head, Cardinality(Bad), Describe(MinOf(Bad)),
                   IF Cardinality(Bad) <= 16 THEN {Describe(i) : i \in Bad} ELSE {}>>)}
 
-IsIntSeq(s, n) == Len(s) = n
-
 -----------------------------------------------------------------------------
 (* C19, small domain: plain integers *)
 Pow2Small == {2^j : j \in 0..30}
